@@ -119,7 +119,7 @@ def _pipeline(chk, replay, quick):
             if not quick or len(c["sub"]) != 2 or rnd.random() < 0.3:
                 c["steps"].append({"a": "FlipAll"})
         execs = [{"case": "helpers", "helper": True, "steps": hsteps}] + cases
-        execs.append({"case": "fuzz", "fuzz": True, "n": 100000 if quick else 3000000})
+        execs.append({"case": "fuzz", "fuzz": True, "n": 100000 if quick else 2000000})
     vf.write_ndjson(chk.path("behaviours.ndjson"), execs)
     chk.cov["generation"] = gst
     # 3. the real codec (ASan/UBSan build)
